@@ -2,10 +2,14 @@ package checks
 
 import (
 	"bytes"
+	"fmt"
+	"sort"
 	"strings"
 	"time"
 
+	disttypes "github.com/chain4energy/c4e-chain/x/cfedistributor/types"
 	mintertypes "github.com/chain4energy/c4e-chain/x/cfeminter/types"
+	vtypes "github.com/chain4energy/c4e-chain/x/cfevesting/types"
 	sdk "github.com/cosmos/cosmos-sdk/types"
 	abci "github.com/tendermint/tendermint/abci/types"
 
@@ -20,7 +24,7 @@ func init() {
 		Level: "exploration",
 		Rule: "one run = a world with a generated minter and distributor configuration and vesting pools appearing over time, 15-40 blocks of parameter-update traffic over all seven update messages with valid, invalid and partially valid payloads " +
 			"through five routes (attacker tx with own authority, attacker tx naming the gov authority, proposal with wrong authority, real x/gov proposal with votes executed when the simulated voting period ends, direct handler call with any authority string); " +
-			"after every message and every EndBlock: parameters changed only by a direct call or a passed proposal carrying the exact gov authority, stored parameters pass Validate(), the minter's current period exists, the vesting denom is unchanged while pools exist, rejected updates leave the bytes identical. " +
+			"after every message and every EndBlock: parameters changed only by a direct call or a passed proposal carrying the exact gov authority, stored parameters pass Validate(), the minter's current period exists, the vesting denom is unchanged while pools exist, rejected updates leave the bytes identical, an update accepted from governance through the message router or the message server is stored exactly as given (periods in any order; what the message does not carry stays). " +
 			"non-trivial = at least one proposal passed and changed parameters and at least one update was refused; distinct = hash of (route, message type, outcome) set",
 		Quick:      Tier{Runs: 1500, BudgetSec: 50},
 		Thorough:   Tier{Runs: 25000, BudgetSec: 780},
@@ -141,6 +145,15 @@ func (m *c13Monitor) AfterTx(r *kernel.Run, tx *kernel.Tx, msgs []sdk.Msg, res *
 			r.Violate("C13", "rejected-intact", "rejected-update-changed-params", "a refused %s changed the stored parameters", typ)
 		}
 	}
+	if isUpdate && (tx.Route == "direct" || tx.Route == "srv") && auth == gov() && res.OK {
+		// what governance accepted is what is stored afterwards: nothing of the payload is dropped or replaced
+		m.evals++
+		if what := appliedAsGiven(r.Chain, msgs[0], m.pre); what != "" {
+			r.Violate("C13", "applied-as-given", "accepted-update-stored-differently:"+typ, "%s was accepted, but %s", typ, what)
+		} else {
+			r.Stats.Inc("probe.accepted_update_stored_as_given")
+		}
+	}
 	if isUpdate && (tx.Route == "direct" || tx.Route == "srv") && auth != gov() && res.OK {
 		r.Violate("C13", "authority", "handler-accepted-wrong-authority", "%s accepted authority %q", typ, auth)
 	}
@@ -257,3 +270,92 @@ func c13Exec(tr *kernel.Trace, src kernel.Source) *Outcome {
 }
 
 var _ = mintertypes.ModuleName
+
+// appliedAsGiven compares the parameters stored after an accepted update with the payload of the message (minter
+// periods in any order; everything the message does not carry must be what was stored before). "" = as given.
+func appliedAsGiven(c *kernel.Chain, msg sdk.Msg, pre paramSnap) string {
+	cdc := kernel.Enc().Marshaler
+	mintersKey := func(ms []*mintertypes.Minter) string {
+		var parts []string
+		for _, m := range ms {
+			if m != nil {
+				parts = append(parts, fmt.Sprintf("%010d:%x", m.SequenceId, cdc.MustMarshal(m)))
+			}
+		}
+		sort.Strings(parts)
+		return strings.Join(parts, "|")
+	}
+	subKey := func(s *disttypes.SubDistributor) string { return fmt.Sprintf("%x", cdc.MustMarshal(s)) }
+	switch t := msg.(type) {
+	case *mintertypes.MsgUpdateMintersParams:
+		st := c.MinterParams()
+		var before mintertypes.Params
+		cdc.MustUnmarshal(pre.minter, &before)
+		if !st.StartTime.Equal(t.StartTime) {
+			return fmt.Sprintf("the stored start time is %s, the message says %s", st.StartTime.UTC().Format(time.RFC3339Nano), t.StartTime.UTC().Format(time.RFC3339Nano))
+		}
+		if mintersKey(st.Minters) != mintersKey(t.Minters) {
+			return "the stored periods differ from the periods of the message"
+		}
+		if st.MintDenom != before.MintDenom {
+			return fmt.Sprintf("the mint denomination changed from %s to %s although the message carries none", before.MintDenom, st.MintDenom)
+		}
+	case *mintertypes.MsgUpdateParams:
+		st := c.MinterParams()
+		if !st.StartTime.Equal(t.StartTime) {
+			return fmt.Sprintf("the stored start time is %s, the message says %s", st.StartTime.UTC().Format(time.RFC3339Nano), t.StartTime.UTC().Format(time.RFC3339Nano))
+		}
+		if mintersKey(st.Minters) != mintersKey(t.Minters) {
+			return "the stored periods differ from the periods of the message"
+		}
+		if st.MintDenom != t.MintDenom {
+			return fmt.Sprintf("the stored mint denomination is %s, the message says %s", st.MintDenom, t.MintDenom)
+		}
+	case *disttypes.MsgUpdateParams:
+		st := c.DistParams()
+		if len(st.SubDistributors) != len(t.SubDistributors) {
+			return fmt.Sprintf("%d sub-distributors are stored, the message has %d", len(st.SubDistributors), len(t.SubDistributors))
+		}
+		for i := range t.SubDistributors {
+			if subKey(&st.SubDistributors[i]) != subKey(&t.SubDistributors[i]) {
+				return fmt.Sprintf("stored sub-distributor %d (%s) differs from the message", i, st.SubDistributors[i].Name)
+			}
+		}
+	case *disttypes.MsgUpdateSubDistributorParam:
+		if t.SubDistributor == nil {
+			return ""
+		}
+		for _, s := range c.DistParams().SubDistributors {
+			s := s
+			if s.Name == t.SubDistributor.Name {
+				if subKey(&s) != subKey(t.SubDistributor) {
+					return fmt.Sprintf("the stored sub-distributor %s differs from the message", s.Name)
+				}
+				return ""
+			}
+		}
+		return fmt.Sprintf("no sub-distributor %s is stored", t.SubDistributor.Name)
+	case *disttypes.MsgUpdateSubDistributorBurnShareParam:
+		for _, s := range c.DistParams().SubDistributors {
+			if s.Name == t.SubDistributorName && !s.Destinations.BurnShare.Equal(t.BurnShare) {
+				return fmt.Sprintf("the stored burn share of %s is %s, the message says %s", s.Name, s.Destinations.BurnShare, t.BurnShare)
+			}
+		}
+	case *disttypes.MsgUpdateSubDistributorDestinationShareParam:
+		for _, s := range c.DistParams().SubDistributors {
+			if s.Name != t.SubDistributorName {
+				continue
+			}
+			for _, sh := range s.Destinations.Shares {
+				if sh != nil && sh.Name == t.DestinationName && !sh.Share.Equal(t.Share) {
+					return fmt.Sprintf("the stored share %s/%s is %s, the message says %s", s.Name, sh.Name, sh.Share, t.Share)
+				}
+			}
+		}
+	case *vtypes.MsgUpdateDenomParam:
+		if d := c.VestingParams().Denom; d != t.Denom {
+			return fmt.Sprintf("the stored vesting denomination is %s, the message says %s", d, t.Denom)
+		}
+	}
+	return ""
+}
